@@ -7,7 +7,7 @@ from ..values import *
 from .. import transfer as T
 from ..voro import find_terms
 from ..astutil import normaliser_functions
-from ..model import AnalysisError
+from ..model import AnalysisError, src, norm_stmt
 
 META = {
     "explanation": "AssignmentTool's composition and selection kernels are interpreted abstractly with symbolic grid sizes: the full "
@@ -218,6 +218,7 @@ def run(ctx, repo, tier):
     # selection used when the pseudotrajectory / reader split the same universe
     from .C10 import selection_siblings
     selection_siblings(ctx, repo, "C11")
+    sign_completion(ctx, repo)
     ctx.require_instances("SELECT", 5, "selector obligations")
     ctx.trust(*META["trusted"])
     ctx.assume(*META["assumptions"])
@@ -231,3 +232,126 @@ def atoms_of_value(v):
             out |= atoms_of(a)
     out |= atoms_of(v)
     return out
+
+
+def sign_completion(ctx, repo):
+    """SIGNFIX: in AssignmentTool._determine_positive_directions the right-handed completion (the sign triple is REPLACED by one of the
+    allowed right-handed triples) may run only when exactly one sign is undetermined; reachability of the replacement is evaluated
+    for 0..3 undetermined signs from the comparisons on the path (enclosing tests and earlier `if ..: raise/return` exits)."""
+    import ast as _a
+    from ..astutil import Canon
+    at = repo.cls("molgri.molecules.transitions", "AssignmentTool")
+    fi = at.methods.get("_determine_positive_directions")
+    if fi is None:
+        ctx.inconclusive("SELECT", "C11.signfix", "anchor vanished: AssignmentTool._determine_positive_directions", at.module.relpath)
+        return
+    ctx.analysed(fi)
+    ctx.instance("SELECT")
+    cn = Canon(Canon.single_defs(fi.node.body))
+
+    def is_count(e):
+        """np.sum(np.isclose(D, 0)) / np.count_nonzero(np.isclose(D, 0)) / np.isclose(D, 0).sum()"""
+        e = cn.expand(e)
+        inner = None
+        if isinstance(e, _a.Call) and src(e.func).split(".")[-1] in ("sum", "count_nonzero"):
+            if e.args:
+                inner = e.args[0]
+            elif isinstance(e.func, _a.Attribute):
+                inner = e.func.value
+        if isinstance(inner, _a.Call) and src(inner.func).split(".")[-1] in ("isclose", "equal") and len(inner.args) >= 2 and \
+                isinstance(inner.args[1], _a.Constant) and inner.args[1].value == 0:
+            return True
+        if isinstance(inner, _a.Compare) and len(inner.ops) == 1 and isinstance(inner.ops[0], _a.Eq) and \
+                isinstance(inner.comparators[0], _a.Constant) and inner.comparators[0].value == 0:
+            return True
+        return False
+
+    def ev(test, n):
+        """truth of `test` when n signs are undetermined; None if the test is not a comparison of that count"""
+        if isinstance(test, _a.UnaryOp) and isinstance(test.op, _a.Not):
+            r = ev(test.operand, n)
+            return None if r is None else (not r)
+        if isinstance(test, _a.BoolOp):
+            rs = [ev(v, n) for v in test.values]
+            if any(r is None for r in rs):
+                return None
+            return all(rs) if isinstance(test.op, _a.And) else any(rs)
+        if isinstance(test, _a.Compare) and len(test.ops) == 1:
+            l, r = test.left, test.comparators[0]
+            op = test.ops[0]
+            if is_count(l) and isinstance(r, _a.Constant) and isinstance(r.value, int):
+                a_, b_ = n, r.value
+            elif is_count(r) and isinstance(l, _a.Constant) and isinstance(l.value, int):
+                a_, b_ = l.value, n
+            else:
+                return None
+            return {_a.Eq: a_ == b_, _a.NotEq: a_ != b_, _a.Lt: a_ < b_, _a.LtE: a_ <= b_, _a.Gt: a_ > b_, _a.GtE: a_ >= b_}.get(type(op))
+        if isinstance(test, _a.Call) and src(test.func).split(".")[-1] == "any" and test.args:
+            # np.any(np.isclose(D, 0))  ==  count >= 1
+            inner = cn.expand(test.args[0])
+            if isinstance(inner, _a.Call) and src(inner.func).split(".")[-1] == "isclose" and len(inner.args) >= 2 and \
+                    isinstance(inner.args[1], _a.Constant) and inner.args[1].value == 0:
+                return n >= 1
+        return None
+    # the replacement:  D = <loop variable of a loop over literal sign triples>
+    repl = None
+    for loop in _a.walk(fi.node):
+        if not isinstance(loop, _a.For) or not isinstance(loop.target, _a.Name):
+            continue
+        it = cn.expand(loop.iter)
+        if not (isinstance(it, (_a.List, _a.Tuple)) and it.elts and all(isinstance(x, (_a.List, _a.Tuple)) for x in it.elts)):
+            continue
+        for st in _a.walk(loop):
+            if isinstance(st, _a.Assign) and len(st.targets) == 1 and isinstance(st.targets[0], _a.Name) and \
+                    isinstance(st.value, _a.Name) and st.value.id == loop.target.id:
+                repl = (loop, st)
+    if repl is None:
+        ctx.inconclusive("SELECT", "C11.signfix", "right-handed completion of the sign triple not recognised", fi.where)
+        return
+    loop, st = repl
+    # path conditions of the loop
+    conds = []          # (test, polarity)
+    node = loop
+    while node is not fi.node:
+        parent = getattr(node, "_parent", None)
+        if parent is None:
+            break
+        if isinstance(parent, _a.If):
+            if any(node is x for x in parent.body):
+                conds.append((parent.test, True))
+            elif any(node is x for x in parent.orelse):
+                conds.append((parent.test, False))
+        # earlier exits in the same block
+        for fld in ("body", "orelse"):
+            blk = getattr(parent, fld, None)
+            if isinstance(blk, list) and any(node is x for x in blk):
+                for prev in blk[:[k for k, x in enumerate(blk) if x is node][0]]:
+                    if isinstance(prev, _a.If) and not prev.orelse and prev.body and isinstance(prev.body[-1], (_a.Raise, _a.Return)):
+                        conds.append((prev.test, False))
+        node = parent
+    reach = set()
+    for n in (0, 1, 2, 3):
+        ok = True
+        for test, pol in conds:
+            r = ev(test, n)
+            if r is None:
+                ctx.inconclusive("SELECT", "C11.signfix", "a condition on the path to the sign completion is not a comparison of the number of "
+                                 "undetermined signs", fi.where, witness=src(test)[:120])
+                return
+            if r != pol:
+                ok = False
+                break
+        if ok:
+            reach.add(n)
+    if reach == {1}:
+        ctx.ok("SELECT", "C11.signfix", "the sign triple is completed from the right-handed triples only when exactly one sign is undetermined",
+               fi.where, norm_stmt(st))
+    elif 0 in reach:
+        ctx.violate("SELECT", "C11.signfix", "the right-handed completion also runs for fully determined sign triples: a triple with product -1 "
+                    "matches an allowed triple in exactly two places and gets one sign flipped, the recovered rotation (hence b) is wrong for "
+                    "non-planar molecules", fi.where, norm_stmt(st), witness=f"replacement reachable for {sorted(reach)} undetermined signs")
+    elif 1 not in reach:
+        ctx.violate("SELECT", "C11.signfix", "the completion of a single undetermined sign is never executed: planar molecules keep a zero sign",
+                    fi.where, norm_stmt(st), witness=f"replacement reachable for {sorted(reach)} undetermined signs")
+    else:
+        ctx.inconclusive("SELECT", "C11.signfix", "sign completion reachable for an unexpected set of cases", fi.where, witness=str(sorted(reach)))
